@@ -967,6 +967,54 @@ theorem parse_encode (hc : Codec f rd nc ok) {g : Glyph} (hv : ValidGlyph ok g) 
   | error k => simp [run, step, hm, stepBody, hg, hl]
   | ok g' => simp [run, step, hm, stepBody, hg, hl]
 
+/-- no object carries a lib -/
+structure NoObjectLibs (g : Glyph) : Prop where
+  anchors : ∀ a, a ∈ g.anchors → a.lib = none
+  guidelines : ∀ a, a ∈ g.guidelines → a.lib = none
+  contours : ∀ c, c ∈ g.contours → c.lib = none ∧ ∀ p, p ∈ c.points → p.lib = none
+  components : ∀ a, a ∈ g.components → a.lib = none
+
+theorem dumpOne_none (id : Option Str) (acc : Dict) : dumpOne id none acc = acc := by
+  cases id <;> rfl
+
+theorem foldl_id_of {α β : Type} (fn : β → α → β) (l : List α) (b : β) (h : ∀ a, a ∈ l → ∀ b, fn b a = b) :
+    l.foldl fn b = b := by
+  induction l generalizing b with
+  | nil => rfl
+  | cons a r ih =>
+    rw [List.foldl_cons, h a List.mem_cons_self b]
+    exact ih b (fun x hx => h x (List.mem_cons_of_mem _ hx))
+
+theorem dump_empty_of_no_libs {g : Glyph} (h : NoObjectLibs g) : dumpObjectLibs g = [] := by
+  unfold dumpObjectLibs
+  simp only
+  rw [foldl_id_of _ g.anchors [] (fun a ha b => by rw [h.anchors a ha, dumpOne_none])]
+  rw [foldl_id_of _ g.guidelines [] (fun a ha b => by rw [h.guidelines a ha, dumpOne_none])]
+  rw [foldl_id_of _ g.contours [] (fun c hc b => by
+    rw [(h.contours c hc).1, dumpOne_none]
+    exact foldl_id_of _ c.points b (fun p hp b' => by rw [(h.contours c hc).2 p hp, dumpOne_none]))]
+  exact foldl_id_of _ g.components [] (fun a ha b => by rw [h.components a ha, dumpOne_none])
+
+theorem isNormal_nonZero {b : Nat} (h : isNormal b = true) : nonZero b = true := by
+  cases hz : nonZero b with
+  | true => rfl
+  | false =>
+    simp only [nonZero, Bool.not_eq_false', Bool.or_eq_true, beq_iff_eq] at hz
+    rcases hz with rfl | rfl
+    · exact absurd h (by decide)
+    · exact absurd h (by decide)
+
+/-- the glyph that comes back: colours as their three-decimal strings read, scales within 2^-52 of 1 as 1,
+    `-0` offsets as `0`; everything else as it was -/
+def normG (nc : Color → Color) (g : Glyph) : Glyph :=
+  { g with
+    guidelines := g.guidelines.map (pGuideline nc)
+    anchors := g.anchors.map (pAnchor nc)
+    components := g.components.map pComponent
+    contours := g.contours.map pContour
+    image := g.image.map (pImage nc) }
+
+
 end
 
 end Glif
